@@ -222,6 +222,21 @@ func (m *Monitors) onReady(n *Node, rd *raft.Ready) {
 	d := n.rn.VerifState()
 	// C07 (a): exposed hard states
 	if rd.HardState != nil && !raft.IsEmptyHardState(rd.HardState) {
+		// C02 / C05: a Ready whose hard state carries a new term or a new vote (or that carries
+		// entries) must ask for a durable write: an application that syncs only when MustSync says
+		// so would otherwise forget the vote in a crash and could vote again in the same term
+		if !n.cfg.Async {
+			pt, pv := uint64(0), uint64(0)
+			if p := x.lastRdHS; p != nil {
+				pt, pv = p.GetTerm(), p.GetVote()
+			} else if hs, _, err := n.st.InitialState(); err == nil && hs != nil {
+				pt, pv = hs.GetTerm(), hs.GetVote()
+			}
+			if (rd.HardState.GetTerm() != pt || rd.HardState.GetVote() != pv || len(rd.Entries) > 0) && !rd.MustSync {
+				m.report("C02", "", "node %d: a Ready exposes term %d vote %d (before: term %d vote %d) without MustSync: an application that syncs only when told to loses the vote in a crash", n.id, rd.HardState.GetTerm(), rd.HardState.GetVote(), pt, pv)
+			}
+			m.hit("C02.hardstate-exposed-mustsync")
+		}
 		if p := x.lastRdHS; p != nil {
 			m.hit("C07.exposed-hardstate")
 			m.checkHS("exposed", n, p, rd.HardState)
@@ -618,6 +633,15 @@ func (m *Monitors) afterOp(n *Node, kind string) {
 	}
 	m.viewBefore = ""
 
+	// C17: a granted pre-vote response is an answer to a pre-campaign; at a node that is not (or no
+	// longer) a pre-candidate it changes neither term nor leader
+	if msg != nil && prev != nil && msg.GetType() == pb.MsgPreVoteResp && !msg.GetReject() && prev.State != raft.StatePreCandidate {
+		m.hit("C17.prevote-grant-at-non-precandidate")
+		if d.Term != prev.Term || d.Lead != prev.Lead {
+			m.report("C17", "", "node %d (%v, not a pre-candidate) stepped a pre-vote grant of term %d and went from term %d lead %d to term %d lead %d", n.id, prev.State, msg.GetTerm(), prev.Term, prev.Lead, d.Term, d.Lead)
+		}
+	}
+
 	// C06 / C14-adjacent: commit never ahead of the log, never decreasing within an incarnation
 	if d.Committed > v.last() {
 		m.report("C06", "", "node %d: commit %d beyond last index %d", n.id, d.Committed, v.last())
@@ -982,5 +1006,18 @@ func (m *Monitors) finish() {
 				m.report("C20", "", "log of node %d holds payload %q %d times for %d deliveries", id, tok, c, allowed)
 			}
 		}
+	}
+}
+
+// onStorageSnapshot (C09): ApplySnapshot succeeded on node n's storage: the storage now starts
+// right after the snapshot and holds nothing else (exactly the snapshot's index and term as base).
+func (m *Monitors) onStorageSnapshot(n *Node, s *pb.Snapshot) {
+	idx, term := s.GetMetadata().GetIndex(), s.GetMetadata().GetTerm()
+	fi, _ := n.st.FirstIndex()
+	li, _ := n.st.LastIndex()
+	t, err := n.st.Term(idx)
+	m.hit("C09.snapshot-applied-to-storage")
+	if fi != idx+1 || li != idx || err != nil || t != term {
+		m.report("C09", "", "node %d: after ApplySnapshot(%d/%d) the storage answers first %d last %d term(%d)=%d: not exactly the snapshot as the new base", n.id, idx, term, fi, li, idx, t)
 	}
 }
